@@ -161,7 +161,7 @@ Qed.
 Lemma knw_equals : forall l use_is p, knw (KPred (PEquals l use_is) p) [plain (VKnown l)].
 Proof.
   intros l use_is p s o Hm. cbn [apply_constr apply_pred] in Hm. unfold pred_equals in Hm.
-  destruct (sbase s) as [|l'|c|c|ms] eqn:Eb.
+  destruct (sbase s) as [|l'|c|c|ms|g] eqn:Eb.
   - destruct p; [destruct (assignable_lit s l); [right; exact Hm|apply (nw_nil o _ Hm)]|].
     destruct l; apply (nw_same o s Hm).
   - destruct (Bool.eqb _ p); [apply (nw_same o s Hm)|apply (nw_nil o _ Hm)].
@@ -174,6 +174,8 @@ Proof.
       apply cls_eqb_eq in Ec. subst c0. left.
       destruct (other_members_inv _ _ _ _ Hm) as [j ->].
       unfold bmember_s. rewrite Eb. simpl. apply sub_art_refl.
+  - destruct p; [destruct (assignable_lit s l); [right; exact Hm|apply (nw_nil o _ Hm)]|].
+    destruct l; apply (nw_same o s Hm).
   - destruct p; [destruct (assignable_lit s l); [right; exact Hm|apply (nw_nil o _ Hm)]|].
     destruct l; apply (nw_same o s Hm).
   - destruct p; [destruct (assignable_lit s l); [right; exact Hm|apply (nw_nil o _ Hm)]|].
@@ -193,7 +195,7 @@ Qed.
 Lemma knw_in : forall ls p, knw (KPred (PIn ls) p) (map (fun l => plain (VKnown l)) ls).
 Proof.
   intros ls p s o Hm. cbn [apply_constr apply_pred] in Hm. unfold pred_in in Hm.
-  destruct (sbase s) as [|l'|c|c|ms] eqn:Eb.
+  destruct (sbase s) as [|l'|c|c|ms|g] eqn:Eb.
   - destruct p; [right; apply (bmember_known_filter _ _ _ Hm)|].
     destruct (in_pattern_type ls); apply (nw_same o s Hm).
   - destruct (Bool.eqb _ p); [apply (nw_same o s Hm)|apply (nw_nil o _ Hm)].
@@ -203,6 +205,8 @@ Proof.
     apply andb_true_iff in E. destruct E as [_ Ec]. apply cls_eqb_eq in Ec. subst c0. left.
     destruct (other_members_inv _ _ _ _ Hm) as [j ->].
     unfold bmember_s. rewrite Eb. simpl. apply sub_art_refl.
+  - destruct p; [right; apply (bmember_known_filter _ _ _ Hm)|].
+    destruct (in_pattern_type ls); apply (nw_same o s Hm).
   - destruct p; [right; apply (bmember_known_filter _ _ _ Hm)|].
     destruct (in_pattern_type ls); apply (nw_same o s Hm).
   - destruct p; [right; apply (bmember_known_filter _ _ _ Hm)|].
@@ -220,6 +224,58 @@ Proof.
   intros op n p T s o Hm. cbn [apply_constr apply_pred] in Hm. unfold pred_lencmp in Hm. left.
   destruct (len_of_value s); [destruct (eval_op _ _ _); [|discriminate]|];
     rewrite bmember_single in Hm; unfold bmember_s in *; rewrite sbase_len_transform in Hm; exact Hm.
+Qed.
+
+Lemma match_members_is_tuple : forall o ms, member_b o (VTuple ms) = true -> exists es, o = OTuple es.
+Proof. intros o ms H. destruct o; try discriminate. eexists; reflexivity. Qed.
+
+Lemma knw_lenpat : forall n star p, knw (KPred (PLenPat n star) p) [plain (VTyped CTuple)].
+Proof.
+  intros n star p s o Hm. cbn [apply_constr apply_pred] in Hm. unfold pred_lenpat in Hm.
+  destruct (len_of_value s).
+  - destruct (Bool.eqb _ p); [apply (nw_same o s Hm)|apply (nw_nil o _ Hm)].
+  - destruct (p && negb star && tuple_typed (sbase s)); [|apply (nw_same o s Hm)].
+    right. rewrite bmember_single in Hm. unfold bmember_s in Hm. simpl in Hm.
+    destruct (match_members_is_tuple o _ Hm) as [es ->]. reflexivity.
+Qed.
+
+Lemma knw_isinstance : forall c p, knw (KIsInstance c p) [plain (VTyped c)].
+Proof.
+  intros c p s o Hm. cbn [apply_constr] in Hm. unfold apply_isinstance in Hm.
+  destruct (sbase s) as [|l|t|t|ms|g] eqn:Eb.
+  - destruct p; [right; exact Hm|left; unfold bmember_s; rewrite Eb; reflexivity].
+  - destruct (Bool.eqb _ p); [apply (nw_same o s Hm)|apply (nw_nil o _ Hm)].
+  - destruct p; [destruct (sub _ c); [apply (nw_same o s Hm)|destruct (sub c _); [right; exact Hm|apply (nw_nil o _ Hm)]]
+                |destruct (sub _ c); [apply (nw_nil o _ Hm)|apply (nw_same o s Hm)]].
+  - destruct (Bool.eqb _ p); [apply (nw_same o s Hm)|apply (nw_nil o _ Hm)].
+  - destruct p; [destruct (sub _ c); [apply (nw_same o s Hm)|destruct (sub c _); [right; exact Hm|apply (nw_nil o _ Hm)]]
+                |destruct (sub _ c); [apply (nw_nil o _ Hm)|apply (nw_same o s Hm)]].
+  - destruct p; [destruct (sub _ c); [apply (nw_same o s Hm)|destruct (sub c _); [right; exact Hm|apply (nw_nil o _ Hm)]]
+                |destruct (sub _ c); [apply (nw_nil o _ Hm)|apply (nw_same o s Hm)]].
+Qed.
+
+Lemma knw_isvalue : forall l p, knw (KIsValue l p) [plain (VKnown l)].
+Proof.
+  intros l p s o Hm. cbn [apply_constr] in Hm. unfold apply_isvalue in Hm.
+  destruct p.
+  - destruct (sbase s) as [|l'|t|t|ms|g] eqn:Eb.
+    + right; exact Hm.
+    + destruct (obj_eqb l' l); [apply (nw_same o s Hm)|apply (nw_nil o _ Hm)].
+    + destruct (isinst l _); [right; exact Hm|apply (nw_nil o _ Hm)].
+    + destruct l; try apply (nw_nil o _ Hm). destruct (sub c t); [right; exact Hm|apply (nw_nil o _ Hm)].
+    + destruct (isinst l _); [right; exact Hm|apply (nw_nil o _ Hm)].
+    + destruct (isinst l _); [right; exact Hm|apply (nw_nil o _ Hm)].
+  - destruct (sbase s) as [|l'|t|t|ms|g] eqn:Eb; try apply (nw_same o s Hm).
+    destruct (obj_eqb l' l); [apply (nw_nil o _ Hm)|apply (nw_same o s Hm)].
+Qed.
+
+Lemma sbase_annotate : forall s new, sbase (annotate s new) = sbase s.
+Proof. intros [b e] new. reflexivity. Qed.
+
+Lemma knw_addannot : forall n p T, knw (KAddAnnot n p) T.
+Proof.
+  intros n p T s o Hm. cbn [apply_constr] in Hm. destruct p; [|apply (nw_same o s Hm)].
+  left. rewrite bmember_single in Hm. unfold bmember_s in *. rewrite sbase_annotate in Hm. exact Hm.
 Qed.
 
 Lemma knw_always : forall p T, knw (KPred PAlways p) T.
@@ -240,14 +296,21 @@ Proof. intros. rewrite map_map. reflexivity. Qed.
 
 Lemma cond_nw : forall c, anw (cond_acon c) (tested c) /\ anw (invert (cond_acon c)) (tested c).
 Proof.
-  induction c as [ |cs|cs|l|l|ls|op n|t|t|c0| |b0|c IH|a IHa b IHb|a IHa b IHb];
+  induction c as [ |cs|cs|l|l|ls|op n|t|t|c0| |b0|po|n star|pre star post|po|kps|a IHa b IHb|c1|l1|n1 b1|c IH|a IHa b IHb|a IHa b IHb];
     cbn [cond_acon invert flip negb tested];
     try (split; apply anw_leaf;
-         first [ apply knw_truthy | apply knw_equals | apply knw_in | apply knw_lencmp
+         first [ apply knw_truthy | apply knw_isinstance | apply knw_isvalue | apply knw_addannot | apply knw_equals | apply knw_in | apply knw_lencmp | apply knw_lenpat
                | apply knw_always | apply knw_valueobject | apply knw_isassignable
                | rewrite map_plain_typed; apply knw_isassignable
                | rewrite map_plain_sub; apply knw_isassignable ]).
   - split; apply anw_null.
+  - split; apply anw_null.
+  - split; apply anw_null.
+  - destruct IHa as [IHa1 IHa2]. destruct IHb as [IHb1 IHb2]. split.
+    + apply anw_and; [apply (anw_weaken _ (tested a)); [intros o; apply bmember_app_l|exact IHa1]
+                     |apply (anw_weaken _ (tested b)); [intros o; apply bmember_app_r|exact IHb1]].
+    + apply anw_or; [apply (anw_weaken _ (tested a)); [intros o; apply bmember_app_l|exact IHa2]
+                    |apply (anw_weaken _ (tested b)); [intros o; apply bmember_app_r|exact IHb2]].
   - destruct IH as [IH1 IH2]. split; [exact IH2|rewrite invert_involutive; exact IH1].
   - destruct IHa as [IHa1 IHa2]. destruct IHb as [IHb1 IHb2]. split.
     + apply anw_and; [apply (anw_weaken _ (tested b)); [intros o; apply bmember_app_r|exact IHb1]
@@ -278,4 +341,28 @@ Proof.
   destruct (narrow_no_widening V c pol o Hm) as [H|H]; [left|right].
   - rewrite <- (bmember_plain_value o V HV). exact H.
   - rewrite <- (bmember_plain_value o _ HT). exact H.
+Qed.
+
+(* the same for the end-to-end value (the scope merge of visit_BoolOp only adds narrowed copies) *)
+Lemma boolop_merge_nw : forall c V o,
+  bmember o (boolop_merge V c) = true -> bmember o V = true \/ bmember o (tested c) = true.
+Proof.
+  induction c; intros V o Hm; simpl in *; try (left; exact Hm).
+  - apply IHc. exact Hm.
+  - rewrite bmember_app in Hm. apply orb_true_iff in Hm. destruct Hm as [Hm|Hm]; [left; exact Hm|].
+    destruct (cond_nw c1) as [H1 _]. unfold narrow, constrain in Hm.
+    destruct (apply_all_nw _ _ o H1 V Hm) as [H|H]; [left; exact H|right; apply bmember_app_l; exact H].
+  - rewrite bmember_app in Hm. apply orb_true_iff in Hm. destruct Hm as [Hm|Hm]; [left; exact Hm|].
+    destruct (cond_nw c1) as [_ H2]. unfold narrow, constrain in Hm.
+    destruct (apply_all_nw _ _ o H2 V Hm) as [H|H]; [left; exact H|right; apply bmember_app_l; exact H].
+Qed.
+
+Theorem narrow_e2e_no_widening : forall V c pol o,
+  member o (narrow_e2e V c pol) = true -> bmember o V = true \/ bmember o (tested c) = true.
+Proof.
+  intros V c pol o Hm. apply member_bmember in Hm. unfold narrow_e2e, constrain in Hm.
+  destruct (cond_nw c) as [H1 H2].
+  assert (H : bmember o (boolop_merge V c) = true \/ bmember o (tested c) = true)
+    by (destruct pol; [apply (apply_all_nw _ _ o H1 _ Hm)|apply (apply_all_nw _ _ o H2 _ Hm)]).
+  destruct H as [H|H]; [apply (boolop_merge_nw c V o H)|right; exact H].
 Qed.
